@@ -25,6 +25,7 @@ META = {
     "assumptions": ["analysed targets: x86_64 and aarch64 (NEON kernel, type-checked with -Zbuild-std, never executed), i686 in the thorough tier; portable-SIMD kernels do not compile with the installed nightly and are not analysed"],
     "not_decided": ["the portable-SIMD kernels (do not compile with the installed nightly)"],
 }
+TECHNIQUE = 'full-domain evaluation of the small distance functions against the reference, operation-DAG sibling agreement of the body kernels, byte-lane abstract interpretation of the kernel core, byte-exact vector-load coverage, linear forms over kernel lanes'
 
 
 def run(ctx, FS):
